@@ -109,6 +109,7 @@ def convolve1d(f, weights, axis, mode='reflect', cval=0., out=None):
     _check_mode(mode, cval, 'convolve1d')
     axis = _get_axis(f, axis, 'convolve1d')
     if f.flags.contiguous and len(weights) < f.shape[axis]:
+        weights = weights.astype(f.dtype, copy=False)
         weights = np.ascontiguousarray(weights, dtype=np.double)
         indices = [a for a in range(f.ndim) if a != axis] + [axis]
         rindices = [indices.index(a) for a in range(f.ndim)]
